@@ -31,8 +31,10 @@ class Case:
 _schema_cache = {}
 
 
-def make_schema(rng, handlers, phandler=0.5):
+def make_schema(rng, handlers, phandler=0.5, schema_hook=None):
     sd = cfggen.gen_schema(rng, handlers=handlers, phandler=phandler)
+    if schema_hook is not None:
+        schema_hook(rng, sd)       # extends the description in place (e.g. cfggen.add_keytype_override)
     # every fifth schema is delivered as a chain of three documents (schema-level extends): same schema object expected
     real = F.load_real_chain(sd, rng) if rng.random() < 0.2 else F.load_real(sd)
     elab = F.elaborate(sd)
@@ -49,14 +51,14 @@ def check_digest(ctx, sd, real, elab):
 
 
 def gen_cases(ctx, n_schemas, n_texts, handlers=False, nfaults=(0, 0, 1, 1, 2, 3), faults=None, plain=False, systematic=True,
-              phandler=0.5, pempty=0.0):
+              phandler=0.5, pempty=0.0, schema_hook=None):
     """pempty > 0: keys whose datatype converts the empty string are given WITH the empty value (alone on their line, or
     through a reference to a name defined as nothing) in that share of their occurrences in the random texts, and every schema
     gets two further fault-free texts in which most such keys are (one literal, one through references)"""
     rng = ctx.rng
     cases = []
     for _ in range(n_schemas):
-        sd, real, elab, hn = make_schema(rng, handlers, phandler)
+        sd, real, elab, hn = make_schema(rng, handlers, phandler, schema_hook)
         # a digest mismatch is recorded as a broken tie; the texts still run against the EXPECTED elaboration so that a
         # schema-loading regression surfaces as a concrete (schema, text) on which the loader's result is wrong
         check_digest(ctx, sd, real, elab)
